@@ -43,11 +43,34 @@ def lex(g, data, skip_ws=True, skip_nl=True, matchers=None):
 
 TAG = {'V': 0, 'W': 1, 'M': 9}
 
+def lex_script(g, data, skip_ws=True, skip_nl=True):
+    """tokens as the scripted custom lexer answers; also the expected log entry of every lexer call"""
+    ws = (WS_NL if skip_nl else WS_NONL) if skip_ws else b''
+    term, ln = g.lexspec
+    out = Lexed(); out.toks = []; out.lexerr = None; out.calls = []
+    pos = 0; line = 1; col = 1; n = len(data)
+    while True:
+        s = pos
+        while pos < n and data[pos] in ws: pos += 1
+        line, col = advance(line, col, data[s:pos])
+        if pos == n:
+            out.eof = (pos, line, col); return out
+        b = data[pos]; t = term[b]
+        if t < 0:
+            out.calls.append('L%d:%d:%d:%d->fail;' % (pos, n - pos, line, col))
+            out.lexerr = (pos, line, col); out.eof = None; return out
+        l = min(ln[b], n - pos)
+        out.calls.append('L%d:%d:%d:%d->%d:%d;' % (pos, n - pos, line, col, t, l))
+        out.toks.append((t, pos, l, line, col))
+        line, col = advance(line, col, data[pos:pos + l]); pos += l
+
 class Expected: pass
 
 def expect(g, tb, data, skip_ws=True, skip_nl=True, ctx_mode=None, matchers=None, state_map=None, lexed=None):
     """Full expected observation. state_map: ref state -> lib state (for the verbose trace), optional."""
-    lx = lexed if lexed is not None else lex(g, data, skip_ws, skip_nl, matchers)
+    if lexed is not None: lx = lexed
+    elif getattr(g, 'lexspec', None) is not None: lx = lex_script(g, data, skip_ws, skip_nl)
+    else: lx = lex(g, data, skip_ws, skip_nl, matchers)
     toks = [t[0] for t in lx.toks]
     if lx.lexerr is not None: toks.append(LEXERR)
     res = ref_lr1.parse(tb, toks, recover=True)
@@ -68,11 +91,18 @@ def expect(g, tb, data, skip_ws=True, skip_nl=True, ctx_mode=None, matchers=None
     red_iter = iter(res.reductions)
     trace = []
     def sm(s): return state_map.get(s, '?%d' % s) if state_map is not None else s
-    for a in res.actions:
+    calls = getattr(lx, 'calls', None)
+    lexat = {}
+    if calls is not None:
+        for ai, p in res.lexpoints:
+            if p < len(calls): lexat.setdefault(ai, []).append(calls[p])
+    for ai, a in enumerate(list(res.actions) + [('end',)]):
+        for c_ in lexat.get(ai, ()): ev.append(c_)
+        if a[0] == 'end': break
         if a[0] == 'sh':
             _, st, t, p = a
             term = g.terms[t]; tk = lx.toks[p]
-            if term.typed:
+            if term.typed or term.kind == 'k':
                 v = fresh(); tokval[p] = v
                 ev.append('t%d:%d:%d=%d;' % (t, tk[1], tk[2], v))
             trace.append(('sh', sm(st), data[tk[1]:tk[1] + tk[2]].decode('latin-1')))
@@ -87,7 +117,7 @@ def expect(g, tb, data, skip_ws=True, skip_nl=True, ctx_mode=None, matchers=None
                     args.append('e,')
                 else:
                     tk = lx.toks[kid.tok]; term = g.terms[kid.term]
-                    if term.typed: args.append('T%d:%d:v%d,' % (tk[3], tk[4], tokval[kid.tok]))
+                    if term.typed or term.kind == 'k': args.append('T%d:%d:v%d,' % (tk[3], tk[4], tokval[kid.tok]))
                     elif term.kind == 'c': args.append('c%d:%d:%d,' % (tk[3], tk[4], ord(term.text)))
                     else: args.append('s%d:%d:%d:%d,' % (tk[3], tk[4], tk[1], tk[2]))
             vt = g.vtypes[rule.lhs]
